@@ -47,6 +47,7 @@ BASE_PARTIALS = {
     "part/now": "{{ 'now' | date: '%s' }}/{{ now | date: '%s' }}/{{ today | date: '%Y-%m-%d' }}/{{ 'today' | date: '%Y-%m-%d' }};",
     "part/nowbase": "[{% block t %}{{ now | date: '%s' }}{% endblock %}]",
     "part/blk": "<{% block z %}Z{% endblock %}>",
+    "part/gv": "[{{ gv }}|{{ shared.n }}|{{ extra }}]",
 }
 
 
@@ -109,6 +110,19 @@ STATEFUL = {
     "translate": ("{{ 'hello' | t }}|{{ 'one' | ngettext: 'many', 2 }}|{% translate %}Hello{% endtranslate %}|{{ 'hello' | gettext }}",
                   lambda now, d: (f"{d['_lang']}(hello)|{d['_lang']}N(many)|{d['_lang']}(Hello)|{d['_lang']}(hello)"
                                   if d.get("_lang") else "hello|many|Hello|hello")),
+    "escprobe": ("{{ \"Tom & Jerry's\" | strip_html }}|{{ s2 | strip_html }}|{{ s2 }}|{{ 'a<b' | escape_once }}|{{ s2 | escape_once }}"
+                 "|{{ s2 | strip_html | upcase }}|{{ \"Tom & Jerry's\" | strip_newlines }}|{{ s2 | strip_newlines }}",
+                 lambda now, d: ("Tom & Jerry's|Tom &amp; Jerry&#39;s|Tom &amp; Jerry&#39;s|a&lt;b|Tom &amp; Jerry&#39;s|"
+                                 "TOM &amp; JERRY&#39;S|Tom & Jerry's|Tom &amp; Jerry&#39;s") if d.get("_auto_escape") else
+                                ("Tom & Jerry's|Tom & Jerry's|Tom & Jerry's|a&lt;b|Tom &amp; Jerry&#x27;s|TOM & JERRY'S|"
+                                 "Tom & Jerry's|Tom & Jerry's")),
+    "moneytie": ("{{ 0.125 | money }}|{{ 2.345 | currency }}|{{ 2.5 | round }}|{{ 3.5 | round }}|{{ 0.125 | money }}"
+                 "|{{ 1.005 | round: 2 }}|{{ 2.675 | money }}",
+                 # (no closed form when the render data sets a locale / currency: Babel follows them)
+                 lambda now, d: None if ("locale" in d or "currency_code" in d) else "$0.12|$2.35|2|4|$0.12|1.0|$2.67"),
+    "partialdate": ("{{ '10:30' | date: '%Y-%m-%d %H:%M' }}|{{ '5 March' | date: '%Y-%m-%d' }}|{{ '23:59:59' | date: '%j %H' }}",
+                    lambda now, d: "|".join([_fmt_dt(now, "%Y-%m-%d") + " 10:30", _fmt_dt(now, "%Y") + "-03-05",
+                                             _fmt_dt(now, "%j") + " 23"])),
     "nowtwice": ("{{ 'now' | date: '%s' }}-{{ 'now' | date: '%s' }}-{{ now | date: '%s' }}",
                  lambda now, d: f"{int(now)}-{int(now)}-{int(now)}"),
 }
@@ -485,6 +499,7 @@ class World:
         d["nums"] = [1, 2, 3, 4]
         d["unsorted"] = [3, 1, 2]
         d["_lang"] = ("T", "FR", "DE", "JA")[spec["seed"] % 4] if spec.get("catalog") else None
+        d["s2"] = "Tom & Jerry's"
         d.update(spec.get("extra") or {})
         return d
 
@@ -603,9 +618,13 @@ class World:
             self.count("pristine_process_ok")
         # oracle 2: closed form
         prog = h.get("prog")
-        if (prog in STATEFUL and step["op"] == "render" and not fault and self.plain_env(ei)
-                and not h.get("globals")):
-            want = STATEFUL[prog][1](self.clock.now, self.raw_data(step["data"]))
+        if (prog in STATEFUL and step["op"] == "render" and not fault
+                and self.plain_env(ei, allow_auto_escape=(prog == "escprobe")) and not h.get("globals")):
+            rd = self.raw_data(step["data"])
+            rd["_auto_escape"] = bool((self.plan["envs"][ei].get("env") or {}).get("auto_escape"))
+            want = STATEFUL[prog][1](self.clock.now, rd)
+            if want is None:
+                want = got[1] if got[0] == "ok" else None
             plain_data = (step["data"].get("drops") or {}).get("mode") == "none"
             # an error where text is expected counts only for plain data: wrapped data
             # (Mapping/Sequence doubles) legitimately fails some filters' type checks
@@ -623,12 +642,12 @@ class World:
             if first != exp:
                 raise Violation("reference_drift", step=step["id"], prog=prog, first=_short(first), now=_short(exp))
 
-    def plain_env(self, ei: int) -> bool:
+    def plain_env(self, ei: int, allow_auto_escape: bool = False) -> bool:
         spec = self.plan["envs"][ei]
         if spec.get("default_global"):
             return not any(e[0] == "config" for e in self.env_events[ei])
         e = spec["env"]
-        return (not e.get("auto_escape") and not e.get("undefined") and not e.get("trim")
+        return ((allow_auto_escape or not e.get("auto_escape")) and not e.get("undefined") and not e.get("trim")
                 and e.get("suppress_blank_control_flow_blocks") is None and not e.get("loop_iteration_limit")
                 and not e.get("output_stream_limit") and not e.get("local_namespace_limit")
                 and not e.get("context_depth_limit") and not spec.get("globals")
@@ -809,7 +828,7 @@ def do_step(w: World, step: dict) -> None:
         prog = step.get("prog")
         if prog in STATEFUL and prog not in NEEDS_PARTIALS and got[0] == "ok" and not configured:
             want = STATEFUL[prog][1](w.clock.now, w.raw_data(step["data"]))
-            if got[1] != want:
+            if want is not None and got[1] != want:
                 raise Violation("closed_form", step=step["id"], prog=prog, got=got[1], expected=want)
             w.count("closed_form_ok")
     else:
@@ -1024,7 +1043,8 @@ def gen_plan(seed: int, tier: str) -> dict:
             envs.append({"default_global": True})
             continue
         plain = rng.random() < 0.55
-        envc = ({"shopify": True} if shopify else {}) if plain else {
+        only_escape = (not plain) and rng.random() < 0.25
+        envc = ({"shopify": True} if shopify else {}) if plain else ({"auto_escape": True} if only_escape else {
             "shopify": shopify,
             "auto_escape": rng.random() < 0.3,
             "undefined": rng.choice([None, None, "strict", "falsy"]),
@@ -1035,7 +1055,7 @@ def gen_plan(seed: int, tier: str) -> dict:
             "local_namespace_limit": rng.choice([None, None, 300]),
             "context_depth_limit": rng.choice([None, None, None, None, 5]),
             "translation_filters": rng.random() < 0.3,
-        }
+        })
         spec = {
             "env": envc,
             "loader": rng.choice(LOADERS),
@@ -1085,8 +1105,12 @@ def gen_plan(seed: int, tier: str) -> dict:
         else:
             names = list(envs[ei]["partials"])
             st = {"op": "get", "id": nid(), "h": hid, "env": ei, "name": rng.choice(names), "prog": "partial"}
+            if rng.random() < 0.35:
+                # the same name fetched by several callers with equal-but-different globals (1 == True == 1.0)
+                st["name"] = "part/gv"
+                st["globals"] = {"gv": rng.choice([1, True, 1.0, 0, False, "1"]), "shared": {"n": rng.choice([1, True])}}
         if rng.random() < (0.5 if dg else 0.25):
-            st["globals"] = {"gv": rng.choice(["G1", "G2"]), "shared": {"list": [1, 2], "n": rng.choice([1, 2])}}
+            st["globals"] = {"gv": rng.choice(["G1", "G2", 1, True, 1.0]), "shared": {"list": [1, 2], "n": rng.choice([1, 2])}}
         if rng.random() < 0.2 and st["op"] == "parse":
             st["name"] = rng.choice(["main", "dir/page.html"])
         steps.append(st)
@@ -1169,13 +1193,16 @@ def gen_plan(seed: int, tier: str) -> dict:
             hid, ei = rng.choice(handles)
             same_env = [h for h, e in handles if e == ei]
             tasks = []
-            for _ in range(rng.randint(2, 4)):
+            big = rng.random() < 0.06    # 9-12 overlapping loads/renders (pools, semaphores, limits)
+            for _ in range(rng.randint(9, 12) if big else rng.randint(2, 4)):
                 tasks.append({"h": hid if rng.random() < 0.6 else rng.choice(same_env), "data": data_spec(),
-                              "reget": rng.random() < 0.4})
+                              "reget": rng.random() < (0.9 if big else 0.4)})
             st = {"op": "par", "id": nid(), "tasks": tasks}
             if rng.random() < 0.3:
                 st["cancel_target"] = rng.randrange(len(tasks))
             steps.append(st)
+            if big:   # and once more, on another event loop
+                steps.append({"op": "par", "id": nid(), "tasks": [dict(t, data=data_spec()) for t in tasks]})
         elif r < 0.93:
             hid = rng.choice(handles)[0]
             steps.append({"op": "sweep", "id": nid(), "h": hid, "mode": rng.choice("sa"), "data": data_spec(),
